@@ -199,14 +199,14 @@ class C14(Prop):
                 pm = parse_sx(m); pd = parse_sx(d); pr = parse_sx(r)
             except Exception:
                 continue
-            if pm[1] and pm[2]:
+            if len(pm) == 8 and pm[1] and pm[2]:
                 n_exact += 1
                 if pd[1] != pr[1]:
                     n_diff += 1
                     res.append(("nofail", "profiles differ", {"property": self.ID, "kind": "correspondence-broken",
                                                               "what": "dev and release traces differ", "case": c,
                                                               "dev": d[:3000], "release": r[:3000]}))
-            if len(res) > 5:
+            if sum(1 for k, _, _ in res if k != "stat") > 5:
                 break
         res.append(("stat", "release_profile_cases", len(cases)))
         res.append(("stat", "release_profile_exact_traces_equal_to_dev", n_exact - n_diff))
